@@ -378,6 +378,23 @@ def _name(s):
 # normal form of a term modulo helper extraction and placement of conditionals
 
 
+def dict_entry(k: T, v: T) -> Optional[T]:
+    """D if (k, v) are the key and the value of one entry of the dictionary D, however the loop is written:
+    `for k, v in D.items()`, `for k in D: ... D[k]`, `for k in D.keys(): ... D[k]`, `for k, _ in D.items(): ... D[k]`."""
+    if k.op == "item" and k.name == 0 and k.args[0].op == "elem" and k.args[0].args[0].op == "mcall" and k.args[0].args[0].name == "items":
+        D = k.args[0].args[0].args[0]
+        if v.op == "item" and v.name == 1 and v.args[0].key() == k.args[0].key():
+            return D
+        if v.op == "sub" and v.args[1].key() == k.key() and v.args[0].key() == D.key():
+            return D
+        return None
+    if k.op == "elem":
+        D = k.args[0].args[0] if (k.args[0].op == "mcall" and k.args[0].name == "keys" and len(k.args[0].args) == 1) else k.args[0]
+        if v.op == "sub" and v.args[1].key() == k.key() and v.args[0].key() == D.key():
+            return D
+    return None
+
+
 def subst(t: T, m: dict) -> T:
     if t.op == "param" and t.name in m:
         return m[t.name]
